@@ -3,9 +3,15 @@
 //	memfsconc replay <scenarios> <expect>   gated replays of the real memfs through the verifhook yield
 //	                                         points; <expect> is the model's output for the same file
 //	                                         (used only to choose how long to wait for each event)
-//	memfsconc gen <n>                        seeded generator of replay scenarios
+//	memfsconc gen <n> [<nsa> <nsib> [<n4assign> <n4perms>]]
+//	                                         seeded generator of replay scenarios: n of the holder + random
+//	                                         families, nsa / nsib of the shared-ancestor / sibling families
+//	                                         (negative = the whole enumeration; n4assign / n4perms = how much of
+//	                                         the 4-thread part of the shared-ancestor family is enumerated)
 //	memfsconc stress <rounds> [chaos]        ungated stress, prints one history per round for the monitor
 //	memfsconc facts <repo>                   go/ast facts about the lock brackets in memfs
+//	memfsconc leanfacts <repo>               the synchronisation skeleton of every memfs function as Lean data
+//	                                         (lean/Goat/Tie/ExtractedC09.lean, see skeleton.go)
 //	memfsconc kfrace <n>                     witness of KF-C09-1 for the -race build: Remove(dir) against a creation in dir
 package main
 
@@ -35,7 +41,19 @@ func main() {
 		if len(os.Args) > 2 {
 			n, _ = strconv.Atoi(os.Args[2])
 		}
-		genMain(out, n)
+		nsa, nsib := 0, 0
+		if len(os.Args) > 3 {
+			nsa, _ = strconv.Atoi(os.Args[3])
+		}
+		if len(os.Args) > 4 {
+			nsib, _ = strconv.Atoi(os.Args[4])
+		}
+		n4assign, n4perms := 40, 3
+		if len(os.Args) > 6 {
+			n4assign, _ = strconv.Atoi(os.Args[5])
+			n4perms, _ = strconv.Atoi(os.Args[6])
+		}
+		genMain(out, n, nsa, nsib, n4assign, n4perms)
 	case "stress":
 		n := 10
 		if len(os.Args) > 2 {
@@ -54,6 +72,12 @@ func main() {
 			repo = os.Args[2]
 		}
 		factsMain(out, repo)
+	case "leanfacts":
+		repo := "/repo"
+		if len(os.Args) > 2 {
+			repo = os.Args[2]
+		}
+		leanfactsMain(out, repo)
 	default:
 		fmt.Fprintln(os.Stderr, "unknown mode", os.Args[1])
 		os.Exit(2)
